@@ -962,8 +962,8 @@ func (e *specEnv) indexVal(a Val, at types.Type, i Val) (Val, types.Type, error)
 				et = st.Elem()
 			}
 		}
-		es := c.M.SortOf(et)
-		h := c.heapIn(e.st, "S|"+string(es))
+		hn, es := c.M.SliceHeap(et)
+		h := c.heapIn(e.st, hn)
 		return Val{T: fmt.Sprintf("(select (select %s (s_ref %s)) (+ (s_off %s) %s))", h, a.T, a.T, i.T), S: es}, et, nil
 	case SInt:
 		ks, vs, vt, ok := e.mapSorts(at)
@@ -973,7 +973,8 @@ func (e *specEnv) indexVal(a Val, at types.Type, i Val) (Val, types.Type, error)
 		if i.S != ks && ks == SAny && i.S == SStr {
 			i = Val{T: "(a_str " + i.T + ")", S: SAny}
 		}
-		h := c.heapIn(e.st, "M|"+string(ks)+"|"+string(vs))
+		mhn, _, _, _, _ := c.M.MapHeaps(at)
+		h := c.heapIn(e.st, mhn)
 		return Val{T: fmt.Sprintf("(select (select %s %s) %s)", h, a.T, i.T), S: vs}, vt, nil
 	}
 	return Val{}, nil, fmt.Errorf("cannot index sort %s", a.S)
@@ -1047,9 +1048,9 @@ func (e *specEnv) evalCall(x *SX) (Val, types.Type, error) {
 		case SSlice:
 			return Val{T: "(s_len " + a.T + ")", S: SInt}, types.Typ[types.Int], nil
 		case SInt:
-			ks, vs, _, ok := e.mapSorts(at)
+			_, _, _, ok := e.mapSorts(at)
 			if ok {
-				return Val{T: c.mapLen(e.st, ks, vs, a.T), S: SInt}, types.Typ[types.Int], nil
+				return Val{T: c.mapLen(e.st, at, a.T), S: SInt}, types.Typ[types.Int], nil
 			}
 		}
 		return Val{}, nil, fmt.Errorf("len of %s", a.S)
@@ -1069,7 +1070,9 @@ func (e *specEnv) evalCall(x *SX) (Val, types.Type, error) {
 		if k.S != ks && ks == SAny && k.S == SStr {
 			k = Val{T: "(a_str " + k.T + ")", S: SAny}
 		}
-		d := c.heapIn(e.st, "D|"+string(ks)+"|"+string(vs))
+		_ = vs
+		_, dhn, _, _, _ := c.M.MapHeaps(mt)
+		d := c.heapIn(e.st, dhn)
 		return Val{T: fmt.Sprintf("(and (not (= %s 0)) (select (select %s %s) %s))", m.T, d, m.T, k.T), S: SBool}, nil, nil
 	case "isNil", "isStr", "isMap", "isList", "isInt", "isBool", "isFloat", "isMapAA", "isOther":
 		a, _, err := arg(0)
@@ -1236,9 +1239,10 @@ func (e *specEnv) evalCall(x *SX) (Val, types.Type, error) {
 }
 
 // mapLen: uninterpreted cardinality of a domain row
-func (c *FnCtx) mapLen(st map[string]string, ks, vs Sort, m string) string {
+func (c *FnCtx) mapLen(st map[string]string, mt types.Type, m string) string {
+	_, dhn, ks, _, _ := c.M.MapHeaps(mt)
 	fn := "maplen_" + mangle(string(ks))
 	c.declareFun(fn, []Sort{Sort("(Array " + string(ks) + " Bool)")}, SInt)
-	d := c.heapIn(st, "D|"+string(ks)+"|"+string(vs))
+	d := c.heapIn(st, dhn)
 	return fmt.Sprintf("(ite (= %s 0) 0 (%s (select %s %s)))", m, fn, d, m)
 }
